@@ -256,6 +256,17 @@ theorem lq_compl {c : ℕ} (hc : c ≤ MAX_CHAR) (L : Language ℕ) :
 
 /-! ### id-independent facts of `RE.lang` -/
 
+theorem mem_lq_range (s : CharSet) (c : ℕ) (w : List ℕ) :
+    w ∈ lq c (RE.range s).lang ↔ w = [] ∧ s.start ≤ c ∧ c ≤ s.stop := by
+  simp only [lang]
+  show (∃ x, c :: w = [x] ∧ s.start ≤ x ∧ x ≤ s.stop) ↔ _
+  constructor
+  · rintro ⟨x, hx, h1, h2⟩
+    simp only [List.cons.injEq] at hx
+    obtain ⟨rfl, rfl⟩ := hx
+    exact ⟨rfl, h1, h2⟩
+  · rintro ⟨rfl, h1, h2⟩; exact ⟨c, rfl, h1, h2⟩
+
 /-- every word of the language of a well-formed term is an SMT string -/
 theorem lang_wfs : ∀ e : RE, e.WF → ∀ w, w ∈ e.lang → WFs w := by
   intro e
@@ -372,5 +383,420 @@ theorem nullable_iff : ∀ e : RE, e.WF → (e.nullable = true ↔ [] ∈ e.lang
     constructor
     · rintro ⟨e, he, hn⟩; exact ⟨e, he, (ih e he ((WFList_iff l).1 h e he)).1 hn⟩
     · rintro ⟨e, he, hn⟩; exact ⟨e, he, (ih e he ((WFList_iff l).1 h e he)).2 hn⟩
+
+/-! ### derivative classes: well-formedness and refinement -/
+
+/-- `x` and `y` are in the same class of `p`, as `class_of_char` computes it -/
+def Same (p : CharPartition) (x y : Nat) : Prop := p.classOfChar x = p.classOfChar y
+
+theorem Same.symm {p : CharPartition} {x y : Nat} (h : Same p x y) : Same p y x := Eq.symm h
+theorem Same.refl (p : CharPartition) (x : Nat) : Same p x x := rfl
+theorem Same.trans {p : CharPartition} {x y z : Nat} (h : Same p x y) (h' : Same p y z) :
+    Same p x z := Eq.trans h h'
+
+theorem same_iff_cls {p : CharPartition} (hp : p.WF) (x y : Nat) :
+    Same p x y ↔ cls p x = cls p y := by
+  unfold Same; rw [classOfChar_eq_cls hp.1, classOfChar_eq_cls hp.1]
+
+theorem mdc_wf : ∀ (l : List RE) (acc : CharPartition), (∀ e ∈ l, e.derivClass.WF) → acc.WF →
+    (mergeDerivClasses acc l).WF := by
+  intro l
+  induction l with
+  | nil => intro acc _ h; simpa [mergeDerivClasses] using h
+  | cons x xs ih =>
+    intro acc hl hacc
+    simp only [mergeDerivClasses]
+    exact ih _ (fun e he => hl e (by simp [he])) (C12.merge_wf hacc (hl x (by simp)))
+
+/-- the derivative classes of a well-formed term form a well-formed partition -/
+theorem derivClass_wf : ∀ e : RE, e.WF → e.derivClass.WF := by
+  intro e
+  induction e using re_ind with
+  | h_empty => intro _; simp only [derivClass]; exact CharPartition.wf_new
+  | h_eps => intro _; simp only [derivClass]; exact CharPartition.wf_new
+  | h_range s => intro h; simp only [RE.WF] at h; simp only [derivClass]; exact C11.wf_from_set s h
+  | h_concat a b iha ihb =>
+    intro h
+    simp only [RE.WF] at h
+    simp only [derivClass]
+    split
+    · exact C12.merge_wf (iha h.1) (ihb h.2)
+    · exact iha h.1
+  | h_loop e r ih => intro h; simp only [RE.WF] at h; simp only [derivClass]; exact ih h.1
+  | h_compl e ih => intro h; simp only [RE.WF] at h; simp only [derivClass]; exact ih h
+  | h_inter l ih =>
+    intro h
+    simp only [RE.WF] at h
+    simp only [derivClass]
+    exact mdc_wf l _ (fun e he => ih e he ((WFList_iff l).1 h e he)) CharPartition.wf_new
+  | h_union l ih =>
+    intro h
+    simp only [RE.WF] at h
+    simp only [derivClass]
+    exact mdc_wf l _ (fun e he => ih e he ((WFList_iff l).1 h e he)) CharPartition.wf_new
+
+theorem merge_same {p1 p2 : CharPartition} (h1 : p1.WF) (h2 : p2.WF) {x y : Nat}
+    (h : Same (mergePartitions p1 p2) x y) : Same p1 x y ∧ Same p2 x y := by
+  rw [same_iff_cls (C12.merge_wf h1 h2)] at h
+  rw [same_iff_cls h1, same_iff_cls h2]
+  exact C12.merge_refines h1 h2 h
+
+theorem mdc_same : ∀ (l : List RE) (acc : CharPartition), (∀ e ∈ l, e.derivClass.WF) → acc.WF →
+    ∀ {x y : Nat}, Same (mergeDerivClasses acc l) x y →
+      Same acc x y ∧ ∀ e ∈ l, Same e.derivClass x y := by
+  intro l
+  induction l with
+  | nil => intro acc _ _ x y h; exact ⟨by simpa [mergeDerivClasses] using h, by simp⟩
+  | cons a xs ih =>
+    intro acc hl hacc x y h
+    simp only [mergeDerivClasses] at h
+    have ha := hl a (by simp)
+    obtain ⟨h1, h2⟩ := ih _ (fun e he => hl e (by simp [he])) (C12.merge_wf hacc ha) h
+    obtain ⟨h3, h4⟩ := merge_same hacc ha h1
+    refine ⟨h3, ?_⟩
+    intro e he
+    rcases List.mem_cons.1 he with rfl | he
+    · exact h4
+    · exact h2 e he
+
+/-- the classes of a concatenation refine those of the left operand -/
+theorem same_concat_left {a b : RE} (ha : a.WF) (hb : b.WF) {x y : Nat}
+    (h : Same (RE.concat a b).derivClass x y) : Same a.derivClass x y := by
+  simp only [derivClass] at h
+  split at h
+  · exact (merge_same (derivClass_wf a ha) (derivClass_wf b hb) h).1
+  · exact h
+
+/-- … and those of the right operand when the left operand is nullable -/
+theorem same_concat_right {a b : RE} (ha : a.WF) (hb : b.WF) (hn : a.nullable = true) {x y : Nat}
+    (h : Same (RE.concat a b).derivClass x y) : Same b.derivClass x y := by
+  simp only [derivClass, hn, if_true] at h
+  exact (merge_same (derivClass_wf a ha) (derivClass_wf b hb) h).2
+
+theorem same_loop {e : RE} {r : LoopRange} {x y : Nat}
+    (h : Same (RE.loop e r).derivClass x y) : Same e.derivClass x y := by
+  simpa only [derivClass] using h
+
+theorem same_compl {e : RE} {x y : Nat}
+    (h : Same (RE.compl e).derivClass x y) : Same e.derivClass x y := by
+  simpa only [derivClass] using h
+
+theorem same_inter {l : List RE} (hl : WFList l) {x y : Nat}
+    (h : Same (RE.inter l).derivClass x y) : ∀ e ∈ l, Same e.derivClass x y := by
+  simp only [derivClass] at h
+  exact (mdc_same l _ (fun e he => derivClass_wf e ((WFList_iff l).1 hl e he))
+    CharPartition.wf_new h).2
+
+theorem same_union {l : List RE} (hl : WFList l) {x y : Nat}
+    (h : Same (RE.union l).derivClass x y) : ∀ e ∈ l, Same e.derivClass x y := by
+  simp only [derivClass] at h
+  exact (mdc_same l _ (fun e he => derivClass_wf e ((WFList_iff l).1 hl e he))
+    CharPartition.wf_new h).2
+
+/-! ### every derivative class is uniform -/
+
+theorem pow_unif {c c' : ℕ} {L : Language ℕ} (h : ∀ w, c :: w ∈ L → c' :: w ∈ L) :
+    ∀ (k : ℕ) (w : List ℕ), c :: w ∈ L ^ k → c' :: w ∈ L ^ k := by
+  intro k
+  induction k with
+  | zero => intro w hw; rw [pow_zero, Language.mem_one] at hw; cases hw
+  | succ k ih =>
+    intro w hw
+    rw [pow_succ', ← mem_lq, mem_lq_mul] at hw ⊢
+    rcases hw with ⟨u, hu, v, hv, rfl⟩ | ⟨h0, hw⟩
+    · exact .inl (Language.mem_mul.2 ⟨u, h u hu, v, hv, rfl⟩)
+    · exact .inr ⟨h0, ih w hw⟩
+
+/-- one direction of uniformity -/
+theorem unif_imp : ∀ e : RE, e.WF → ∀ c c', c ≤ MAX_CHAR → c' ≤ MAX_CHAR →
+    Same e.derivClass c c' → ∀ w, c :: w ∈ e.lang → c' :: w ∈ e.lang := by
+  intro e
+  induction e using re_ind with
+  | h_empty => intro _ c c' _ _ _ w h; simp only [lang] at h; exact absurd h (Language.notMem_zero _)
+  | h_eps => intro _ c c' _ _ _ w h; simp only [lang] at h; rw [Language.mem_one] at h; cases h
+  | h_range s =>
+    intro hs c c' _ _ hsame w h
+    simp only [RE.WF] at hs
+    simp only [lang] at h ⊢
+    obtain ⟨x, hx, h1, h2⟩ := h
+    simp only [List.cons.injEq] at hx
+    obtain ⟨rfl, rfl⟩ := hx
+    simp only [derivClass] at hsame
+    have hwf := C11.wf_from_set s hs
+    rw [same_iff_cls hwf, cls_eq_iff_mem hwf.1] at hsame
+    have := (hsame s (by simp [fromSet])).1 ⟨h1, h2⟩
+    exact ⟨c', rfl, this.1, this.2⟩
+  | h_concat a b iha ihb =>
+    intro h c c' hc hc' hsame w hw
+    simp only [RE.WF] at h
+    simp only [lang] at hw ⊢
+    rw [← mem_lq, mem_lq_mul] at hw ⊢
+    rcases hw with ⟨u, hu, v, hv, rfl⟩ | ⟨h0, hw⟩
+    · exact .inl (Language.mem_mul.2
+        ⟨u, iha h.1 c c' hc hc' (same_concat_left h.1 h.2 hsame) u hu, v, hv, rfl⟩)
+    · have hn := (nullable_iff a h.1).2 h0
+      exact .inr ⟨h0, ihb h.2 c c' hc hc' (same_concat_right h.1 h.2 hn hsame) w hw⟩
+  | h_loop e r ih =>
+    intro h c c' hc hc' hsame w hw
+    simp only [RE.WF] at h
+    simp only [lang] at hw ⊢
+    obtain ⟨k, hk, hw⟩ := hw
+    exact ⟨k, hk, pow_unif (ih h.1 c c' hc hc' (same_loop hsame)) k w hw⟩
+  | h_compl e ih =>
+    intro h c c' hc hc' hsame w hw
+    simp only [RE.WF] at h
+    simp only [lang] at hw ⊢
+    obtain ⟨h1, h2⟩ := hw
+    refine ⟨wfs_cons.2 ⟨hc', (wfs_cons.1 h1).2⟩, ?_⟩
+    intro h3
+    exact h2 (ih h c' c hc' hc (same_compl hsame).symm w h3)
+  | h_inter l ih =>
+    intro h c c' hc hc' hsame w hw
+    simp only [RE.WF] at h
+    simp only [lang] at hw ⊢
+    obtain ⟨h1, h2⟩ := hw
+    refine ⟨wfs_cons.2 ⟨hc', (wfs_cons.1 h1).2⟩, ?_⟩
+    rw [langAll_iff] at h2 ⊢
+    intro e he
+    exact ih e he ((WFList_iff l).1 h e he) c c' hc hc' (same_inter h hsame e he) w (h2 e he)
+  | h_union l ih =>
+    intro h c c' hc hc' hsame w hw
+    simp only [RE.WF] at h
+    simp only [lang] at hw ⊢
+    rw [langAny_iff] at hw ⊢
+    obtain ⟨e, he, hwe⟩ := hw
+    exact ⟨e, he, ih e he ((WFList_iff l).1 h e he) c c' hc hc' (same_union h hsame e he) w hwe⟩
+
+/-! ### the class representative -/
+
+theorem classRep_congr {p : CharPartition} (hp : p.WF) {a b : Nat} (h : Same p a b) :
+    classRep p a = classRep p b := by
+  unfold Same at h
+  unfold classRep
+  rw [h]
+  cases hb : p.classOfChar b with
+  | interval i =>
+    obtain ⟨hi, _⟩ := ((C11.class_of_char_spec p hp b).1 i).1 hb
+    simp only [List.getElem?_eq_getElem hi]
+  | complement => rfl
+
+/-- the representative is a character of the alphabet in the class of `c` -/
+theorem classRep_same {p : CharPartition} (hp : p.WF) {c : Nat} (hc : c ≤ MAX_CHAR) :
+    Same p (classRep p c) c ∧ classRep p c ≤ MAX_CHAR := by
+  unfold Same classRep
+  cases h : p.classOfChar c with
+  | interval i =>
+    obtain ⟨hi, _⟩ := ((C11.class_of_char_spec p hp c).1 i).1 h
+    have hw := hp.1.get_wf hi
+    simp only [List.getElem?_eq_getElem hi]
+    refine ⟨((C11.class_of_char_spec p hp _).1 i).2 ⟨hi, Nat.le_refl _, hw.1⟩, ?_⟩
+    have := hw.2; have := hw.1; omega
+  | complement =>
+    simp only
+    obtain ⟨h1, h2, h3⟩ := hp.2
+    have hnc : ¬ InList p.list c := by
+      have := (C11.class_of_char_spec p hp c).2.1.1 h
+      rintro ⟨s, hs, hm⟩
+      exact this s hs hm
+    have hle : p.compWitness ≤ c := by
+      rcases Nat.lt_or_ge c p.compWitness with hlt | hge
+      · exact absurd (h3 c hlt) hnc
+      · exact hge
+    refine ⟨?_, by omega⟩
+    rw [classOfChar_eq_cls hp.1, cls_eq_complement_iff]
+    exact h2
+
+/-- what the recursive calls of `compute_derivative` see: the representative, in the sub-term, of
+    any member of the class of `c` is a member of the class of `c` -/
+theorem rep_same {e : RE} (he : e.WF) {c0 c : Nat} (hc : c ≤ MAX_CHAR)
+    (h : Same e.derivClass c0 c) : Same e.derivClass (classRep e.derivClass c0) c := by
+  rw [classRep_congr (derivClass_wf e he) h]
+  exact (classRep_same (derivClass_wf e he) hc).1
+
+/-! ### what the main induction needs of the smart constructors -/
+
+/-- the domain of the derivative theorems: well-formed and no `[0,0]` loop (Proofs/ReNZ.lean) -/
+def Good (e : RE) : Prop := e.WF ∧ e.NZ
+def GoodList (l : List RE) : Prop := WFList l ∧ NZList l
+
+theorem goodList_iff (l : List RE) : GoodList l ↔ ∀ e ∈ l, Good e := by
+  simp only [GoodList, Good, WFList_iff, nzList_iff]
+  constructor
+  · rintro ⟨h1, h2⟩ e he; exact ⟨h1 e he, h2 e he⟩
+  · intro h; exact ⟨fun e he => (h e he).1, fun e he => (h e he).2⟩
+
+/-- The facts about the smart constructors used by `compute_derivative`: each denotes the
+    operation it stands for and stays inside `Good`.  Discharged for every id assignment with
+    `PairSound` in Proofs/DerivFinal.lean. -/
+structure ConsFacts (ord : RE → Nat) : Prop where
+  complement_lang : ∀ e : RE, e.WF → e.complement.lang = {w | WFs w ∧ w ∉ e.lang}
+  complement_good : ∀ e : RE, Good e → Good e.complement
+  mkConcat_lang : ∀ a b : RE, a.WF → b.WF → (mkConcat a b).lang = a.lang * b.lang
+  mkConcat_good : ∀ a b : RE, Good a → Good b → Good (mkConcat a b)
+  mkLoop_lang : ∀ (e : RE) (r : LoopRange), e.WF → RangeOK r → (mkLoop e r).lang = loopLang e.lang r
+  mkLoop_good : ∀ (e : RE) (r : LoopRange), Good e → RangeOK r → Good (mkLoop e r)
+  mkUnion_lang : ∀ a b : RE, a.WF → b.WF → (mkUnion ord a b).lang = a.lang + b.lang
+  mkUnion_good : ∀ a b : RE, Good a → Good b → Good (mkUnion ord a b)
+  mkUnionList_lang : ∀ l : List RE, WFList l → (mkUnionList ord l).lang = langAny l
+  mkUnionList_good : ∀ l : List RE, GoodList l → Good (mkUnionList ord l)
+  mkInterList_lang : ∀ l : List RE, WFList l → (mkInterList ord l).lang = {w | WFs w ∧ w ∈ langAll l}
+  mkInterList_good : ∀ l : List RE, GoodList l → Good (mkInterList ord l)
+
+/-! ### the main induction -/
+
+/-- `compute_derivative(e, c0)` for ANY `c0` in the derivative class of `c` denotes `c⁻¹ L(e)`
+    (the recursive calls go through the class representative of `c0` in each sub-term). -/
+theorem computeDeriv_spec {ord : RE → Nat} (F : ConsFacts ord) : ∀ e : RE, Good e →
+    ∀ c0 c, c ≤ MAX_CHAR → Same e.derivClass c0 c →
+      (computeDeriv ord e c0).lang = lq c e.lang ∧ Good (computeDeriv ord e c0) := by
+  intro e
+  induction e using re_ind with
+  | h_empty =>
+    intro _ c0 c _ _
+    simp only [computeDeriv, lang, lq_zero]
+    exact ⟨trivial, trivial, nz_empty⟩
+  | h_eps =>
+    intro _ c0 c _ _
+    simp only [computeDeriv, lang, lq_one]
+    exact ⟨trivial, trivial, nz_empty⟩
+  | h_range s =>
+    intro hg c0 c _ hsame
+    have hs : s.WF := by have := hg.1; simpa only [RE.WF] using this
+    simp only [derivClass] at hsame
+    have hwf := C11.wf_from_set s hs
+    rw [same_iff_cls hwf, cls_eq_iff_mem hwf.1] at hsame
+    have hmem := hsame s (by simp [fromSet])
+    simp only [computeDeriv]
+    by_cases hc0 : s.contains c0 = true
+    · rw [if_pos hc0]
+      have hc : s.start ≤ c ∧ c ≤ s.stop := hmem.1 (by simpa [CharSet.contains] using hc0)
+      refine ⟨?_, trivial, nz_epsilon⟩
+      ext w
+      rw [mem_lq_range]
+      simp only [lang, Language.mem_one]
+      exact ⟨fun h => ⟨h, hc⟩, fun h => h.1⟩
+    · rw [if_neg hc0]
+      have hc : ¬ (s.start ≤ c ∧ c ≤ s.stop) := by
+        intro h; exact hc0 (by simpa [CharSet.contains] using hmem.2 h)
+      refine ⟨?_, trivial, nz_empty⟩
+      ext w
+      rw [mem_lq_range]
+      simp only [lang]
+      exact ⟨fun h => absurd h (Language.notMem_zero _), fun h => absurd h.2 hc⟩
+  | h_concat a b iha ihb =>
+    intro hg c0 c hc hsame
+    have hwf : a.WF ∧ b.WF := by have := hg.1; simpa only [RE.WF] using this
+    have hnz : a.NZ ∧ b.NZ := (nz_concat a b).1 hg.2
+    have hga : Good a := ⟨hwf.1, hnz.1⟩
+    have hgb : Good b := ⟨hwf.2, hnz.2⟩
+    obtain ⟨hl1, hg1⟩ := iha hga (classRep a.derivClass c0) c hc
+      (rep_same hwf.1 hc (same_concat_left hwf.1 hwf.2 hsame))
+    have hd1 : (mkConcat (computeDeriv ord a (classRep a.derivClass c0)) b).lang
+        = lq c a.lang * b.lang := by
+      rw [F.mkConcat_lang _ _ hg1.1 hwf.2, hl1]
+    have hd1g := F.mkConcat_good _ _ hg1 hgb
+    simp only [computeDeriv, lang]
+    by_cases hn : a.nullable = true
+    · rw [if_pos hn]
+      obtain ⟨hl2, hg2⟩ := ihb hgb (classRep b.derivClass c0) c hc
+        (rep_same hwf.2 hc (same_concat_right hwf.1 hwf.2 hn hsame))
+      refine ⟨?_, F.mkUnion_good _ _ hd1g hg2⟩
+      rw [F.mkUnion_lang _ _ hd1g.1 hg2.1, hd1, hl2,
+        lq_mul_of_nil_mem c ((nullable_iff a hwf.1).1 hn)]
+    · rw [if_neg hn]
+      refine ⟨?_, hd1g⟩
+      rw [hd1, lq_mul_of_nil_not_mem c (fun h => hn ((nullable_iff a hwf.1).2 h))]
+  | h_loop e r ih =>
+    intro hg c0 c hc hsame
+    have hwf : e.WF ∧ RangeOK r := by have := hg.1; simp only [RE.WF] at this; exact this
+    have hnz : e.NZ ∧ r.isZero = false := (nz_loop e r).1 hg.2
+    have hge : Good e := ⟨hwf.1, hnz.1⟩
+    obtain ⟨hl1, hg1⟩ := ih hge (classRep e.derivClass c0) c hc
+      (rep_same hwf.1 hc (same_loop hsame))
+    have hsr := shift_rangeOK hwf.2
+    have hlg := F.mkLoop_good e r.shift hge hsr
+    simp only [computeDeriv, lang]
+    refine ⟨?_, F.mkConcat_good _ _ hg1 hlg⟩
+    rw [F.mkConcat_lang _ _ hg1.1 hlg.1, hl1, F.mkLoop_lang e r.shift hwf.1 hsr,
+      lq_loop c e.lang hwf.2 hnz.2]
+  | h_compl e ih =>
+    intro hg c0 c hc hsame
+    have hwf : e.WF := by have := hg.1; simpa only [RE.WF] using this
+    have hge : Good e := ⟨hwf, (nz_compl e).1 hg.2⟩
+    obtain ⟨hl1, hg1⟩ := ih hge (classRep e.derivClass c0) c hc
+      (rep_same hwf hc (same_compl hsame))
+    simp only [computeDeriv, lang]
+    refine ⟨?_, F.complement_good _ hg1⟩
+    rw [F.complement_lang _ hg1.1, hl1, lq_compl hc]
+  | h_inter l ih =>
+    intro hg c0 c hc hsame
+    have hwf : WFList l := by have := hg.1; simpa only [RE.WF] using this
+    have hgl : ∀ e ∈ l, Good e := fun e he =>
+      ⟨(WFList_iff l).1 hwf e he, (nzList_iff l).1 ((nz_inter l).1 hg.2) e he⟩
+    have hsub : ∀ e ∈ l, (computeDeriv ord e (classRep e.derivClass c0)).lang = lq c e.lang ∧
+        Good (computeDeriv ord e (classRep e.derivClass c0)) := fun e he =>
+      ih e he (hgl e he) _ c hc (rep_same (hgl e he).1 hc (same_inter hwf hsame e he))
+    have hdg : GoodList (derivList ord l c0) := by
+      rw [goodList_iff, derivList_eq_map]
+      intro d hd
+      obtain ⟨e, he, rfl⟩ := List.mem_map.1 hd
+      exact (hsub e he).2
+    simp only [computeDeriv, lang]
+    refine ⟨?_, F.mkInterList_good _ hdg⟩
+    rw [F.mkInterList_lang _ hdg.1]
+    ext w
+    show (WFs w ∧ w ∈ langAll (derivList ord l c0)) ↔ (WFs (c :: w) ∧ c :: w ∈ langAll l)
+    rw [langAll_iff, langAll_iff, wfs_cons, derivList_eq_map]
+    simp only [List.forall_mem_map, hc, true_and]
+    refine and_congr_right (fun _ => forall₂_congr (fun e he => ?_))
+    rw [(hsub e he).1]; exact mem_lq
+  | h_union l ih =>
+    intro hg c0 c hc hsame
+    have hwf : WFList l := by have := hg.1; simpa only [RE.WF] using this
+    have hgl : ∀ e ∈ l, Good e := fun e he =>
+      ⟨(WFList_iff l).1 hwf e he, (nzList_iff l).1 ((nz_union l).1 hg.2) e he⟩
+    have hsub : ∀ e ∈ l, (computeDeriv ord e (classRep e.derivClass c0)).lang = lq c e.lang ∧
+        Good (computeDeriv ord e (classRep e.derivClass c0)) := fun e he =>
+      ih e he (hgl e he) _ c hc (rep_same (hgl e he).1 hc (same_union hwf hsame e he))
+    have hdg : GoodList (derivList ord l c0) := by
+      rw [goodList_iff, derivList_eq_map]
+      intro d hd
+      obtain ⟨e, he, rfl⟩ := List.mem_map.1 hd
+      exact (hsub e he).2
+    simp only [computeDeriv, lang]
+    refine ⟨?_, F.mkUnionList_good _ hdg⟩
+    rw [F.mkUnionList_lang _ hdg.1]
+    ext w
+    rw [mem_lq, langAny_iff, langAny_iff, derivList_eq_map]
+    constructor
+    · rintro ⟨d, hd, hw⟩
+      obtain ⟨e, he, rfl⟩ := List.mem_map.1 hd
+      rw [(hsub e he).1] at hw; exact ⟨e, he, hw⟩
+    · rintro ⟨e, he, hw⟩
+      refine ⟨_, List.mem_map.2 ⟨e, he, rfl⟩, ?_⟩
+      rw [(hsub e he).1]; exact hw
+
+/-- `deriv(e, c)`, for every character `c` of the alphabet -/
+theorem deriv_spec {ord : RE → Nat} (F : ConsFacts ord) {e : RE} (he : Good e) {c : Nat}
+    (hc : c ≤ MAX_CHAR) : (deriv ord e c).lang = lq c e.lang ∧ Good (deriv ord e c) :=
+  computeDeriv_spec F e he _ c hc (classRep_same (derivClass_wf e he.1) hc).1
+
+theorem strDerivative_spec {ord : RE → Nat} (F : ConsFacts ord) : ∀ (s : List Nat) (e : RE),
+    Good e → WFs s →
+      (strDerivative ord e s).lang = {w | s ++ w ∈ e.lang} ∧ Good (strDerivative ord e s) := by
+  intro s
+  induction s with
+  | nil => intro e he _; exact ⟨rfl, he⟩
+  | cons c s ih =>
+    intro e he hs
+    obtain ⟨hc, hs'⟩ := wfs_cons.1 hs
+    obtain ⟨hl, hg⟩ := deriv_spec F he hc
+    obtain ⟨hl2, hg2⟩ := ih (deriv ord e c) hg hs'
+    have : strDerivative ord e (c :: s) = strDerivative ord (deriv ord e c) s := by
+      simp [strDerivative]
+    rw [this]
+    refine ⟨?_, hg2⟩
+    rw [hl2, hl]
+    rfl
 
 end Smt.Deriv
